@@ -305,6 +305,11 @@ def _malformed_cases(tier, rng):
         yield {"spec": {"inputs": [("1a", ax0)] + ins[1:], "outputs": outs}, "class": "non-identifier-name"}
         yield {"spec": {"inputs": ins, "outputs": [("y-z", oidx)]}, "class": "non-identifier-name"}
         yield {"spec": {"inputs": [("s.1c", ax0)] + ins[1:], "outputs": outs}, "class": "non-identifier-name"}
+        # (5) non-identifier index names: whitespace between identifier characters ('j j'), a leading digit
+        if oidx:
+            for badidx in (oidx[-1] + " " + oidx[-1], "k _2", "2" + oidx[-1]):
+                yield {"spec": {"inputs": ins, "outputs": [(o, ax[:-1] + (badidx,)) for o, ax in outs]},
+                       "class": "non-identifier-index"}
 
 
 def _check_malformed(case):
